@@ -6,7 +6,7 @@
 (* PackedState (spec -> implementation).                                     *)
 EXTENDS Crystal, TLC, Json
 
-PolyShapes == {Square, Kite, Quad}
+PolyShapes == {Square, Kite, Kite2, Quad}
 DiscShapes == {Circle, Trimer(5, 15), Trimer(10, 20)}
 \* thin molecules: small outer discs far from the centre (long reach, little area)
 ThinShapes == {Trimer(1, 200), Trimer(2, 60), Trimer(1, 35)}
